@@ -32,7 +32,7 @@ def fieldsStr (fs : List (Nat × Nat)) : String :=
   if fs.isEmpty then "-" else ",".intercalate (fs.map fun kv => s!"{kv.1}:{kv.2}")
 
 def evStr (e : Ev) : String :=
-  s!"{e.sid}/{e.tid}/{e.rate}/{if e.stressed then 1 else 0}/{optB e.probe}/{fieldsStr e.fields}"
+  s!"{e.c.sid}/{e.c.tid}/{e.rate}/{if e.c.stressed then 1 else 0}/{optB e.c.probe}/{fieldsStr e.c.fields}"
 
 def txStr : Tx → String
   | .up => "u" | .peer => "p"
@@ -50,7 +50,7 @@ def tailStr (s : St) (tid : Nat) (enqs : List Enq) : String :=
   s!"enq={listOr "," (enqs.map enqStr)} q={s.qIn.length},{s.qPeer.length} buf={spans},{s.live.length}"
 
 def batchStr (b : BKey × List (Nat × Ev)) : String :=
-  let es := b.2.map fun oe => s!"{oe.1}@{oe.2.host}/{oe.2.key}/{oe.2.ds}/{evStr oe.2}"
+  let es := b.2.map fun oe => s!"{oe.1}@{oe.2.c.host}/{oe.2.c.key}/{oe.2.c.ds}/{evStr oe.2}"
   s!"{b.1.host}/{b.1.key}/{b.1.ds}|{"+".intercalate es}"
 
 def reqStr (r : Req) : String :=
@@ -83,8 +83,9 @@ def parseSpan (op : List String) : Option SpanOp := do
   let probe ← parseOB ((kv op "probe").getD "")
   let fs ← parseFields ((kv op "f").getD "")
   some { via := via, owner := owner,
-         e := { sid := 0, tid := (← n "tid"), host := (← n "host"), key := (← n "key"), ds := (← n "ds"),
-                rate := (← n "rate"), stressed := false, probe := probe, fields := fs } }
+         e := { c := { sid := 0, tid := (← n "tid"), host := (← n "host"), key := (← n "key"), ds := (← n "ds"),
+                       stressed := false, probe := probe, fields := fs },
+                rate := (← n "rate") } }
 
 def extHash (exts : List (List String)) (tid : Nat) : Option Nat :=
   exts.findSome? fun e =>
@@ -110,19 +111,19 @@ def oStep (o : OSt) (op : List String) (exts : List (List String)) : OSt × Opti
     match parseSpan args with
     | none => (o, some "bad-op")
     | some sp =>
-      let h := if sp.e.tid == 0 then some 0 else extHash exts sp.e.tid
+      let h := if sp.e.c.tid == 0 then some 0 else extHash exts sp.e.c.tid
       match h with
       | none => (o, some "missing-ext-hash")
       | some h =>
         match step variant o.cfg o.s (.span sp.via sp.owner sp.e h) with
-        | (s', .span ob enqs) => ({ o with s := s' }, some s!"o={ob} err=0 {tailStr s' sp.e.tid enqs}")
+        | (s', .span ob enqs) => ({ o with s := s' }, some s!"o={ob} err=0 {tailStr s' sp.e.c.tid enqs}")
         | _ => (o, some "bad-op")
   | ["work"] =>
     match step variant o.cfg o.s .work with
     | (s', .work none enqs) => ({ o with s := s' }, some s!"o=- from=- {tailStr s' 0 enqs}")
     | (s', .work (some (ob, via)) enqs) =>
       let from_ := match via with | .incoming => "i" | .peer => "p"
-      ({ o with s := s' }, some s!"o={ob} from={from_} {tailStr s' (s'.store ob).tid enqs}")
+      ({ o with s := s' }, some s!"o={ob} from={from_} {tailStr s' (s'.store ob).c.tid enqs}")
     | _ => (o, some "bad-op")
   | ["flush", t] =>
     if t != "u" && t != "p" then (o, some "bad-op") else
@@ -205,8 +206,8 @@ def bufSpans (buf : String) : String :=
   | _ => "?"
 
 def contentFails (where_ : String) (o : Nat) (inp : Ev) (w : WEv) : List Fail :=
-  (if w.fields != inp.fields || w.tid != inp.tid then
-    [fail s!"kept-span-content-changed:{where_}" s!"span {o}: fields {fieldsStr w.fields} trace {w.tid}, arrived with {fieldsStr inp.fields} trace {inp.tid}"] else []) ++
+  (if w.fields != inp.c.fields || w.tid != inp.c.tid then
+    [fail s!"kept-span-content-changed:{where_}" s!"span {o}: fields {fieldsStr w.fields} trace {w.tid}, arrived with {fieldsStr inp.c.fields} trace {inp.c.tid}"] else []) ++
   (if !w.stressed then [fail s!"kept-span-not-marked-stressed:{where_}" s!"span {o} kept by stress relief without meta.stressed"] else [])
 
 def monSpan (m : MSt) (args : List String) (exts : List (List String)) (toks : List String) : MSt × List Fail :=
@@ -217,26 +218,26 @@ def monSpan (m : MSt) (args : List String) (exts : List (List String)) (toks : L
     let buf := (kv toks "buf").getD "?"
     let m1 := { m with arrived := (o, sp) :: m.arrived, q := q, traces := bufTraces buf }
     let unbuffered := q == m.q && bufTraces buf == m.traces
-    if sp.e.probe == some true then
+    if sp.e.c.probe == some true then
       (m1, if enqs.isEmpty && unbuffered then [] else
-        [fail "probe-not-discarded" s!"probe received for trace {sp.e.tid}: enq={(kv toks "enq").getD "-"} q={q} buf={buf}"])
-    else if sp.e.tid == 0 then (m1, [])
+        [fail "probe-not-discarded" s!"probe received for trace {sp.e.c.tid}: enq={(kv toks "enq").getD "-"} q={q} buf={buf}"])
+    else if sp.e.c.tid == 0 then (m1, [])
     else if m.stressed then
       let kept := enqs.any fun e => e.tx == "u" && e.obj == o
       let f1 := if unbuffered then [] else
-        [fail "buffered-under-stress" s!"span {o} of trace {sp.e.tid} arrived under stress: queues {m.q}->{q}, buffered traces {m.traces}->{bufTraces buf}"]
-      let (f2, dec') := match lookup m.decided sp.e.tid with
+        [fail "buffered-under-stress" s!"span {o} of trace {sp.e.c.tid} arrived under stress: queues {m.q}->{q}, buffered traces {m.traces}->{bufTraces buf}"]
+      let (f2, dec') := match lookup m.decided sp.e.c.tid with
         | some d => (if d == kept then [] else
-            [fail "decision-not-remembered:while-stressed" s!"trace {sp.e.tid} first decided keep={d}, span {o} got keep={kept}"], m.decided)
+            [fail "decision-not-remembered:while-stressed" s!"trace {sp.e.c.tid} first decided keep={d}, span {o} got keep={kept}"], m.decided)
         | none =>
-          match extHash exts sp.e.tid with
+          match extHash exts sp.e.c.tid with
           | none => ([fail "no-hash" "harness gave no hash"], m.decided)
           | some h => (if ruleKeep m.srate h == kept then [] else
-              [fail "decision-not-hash-rule" s!"trace {sp.e.tid} hash {h} rate {m.srate}: rule says keep={ruleKeep m.srate h}, node did keep={kept}"],
-              (sp.e.tid, kept) :: m.decided)
+              [fail "decision-not-hash-rule" s!"trace {sp.e.c.tid} hash {h} rate {m.srate}: rule says keep={ruleKeep m.srate h}, node did keep={kept}"],
+              (sp.e.c.tid, kept) :: m.decided)
       let f3 := if !kept then [] else
         (enqs.filter fun e => e.tx == "u" && e.obj == o).flatMap fun e =>
-          if e.host == toString sp.e.host && e.key == toString sp.e.key && e.ds == toString sp.e.ds && e.probe == optB sp.e.probe then []
+          if e.host == toString sp.e.c.host && e.key == toString sp.e.c.key && e.ds == toString sp.e.c.ds && e.probe == optB sp.e.c.probe then []
           else [fail "kept-span-changed-before-enqueue" s!"span {o} queued upstream as {e.host}/{e.key}/{e.ds}/{e.probe}"]
       let f4 := if (enqs.filter fun e => e.tx == "u" && e.obj == o).length > 1 then
         [fail "kept-span-queued-twice" s!"span {o} queued upstream more than once"] else []
@@ -245,8 +246,8 @@ def monSpan (m : MSt) (args : List String) (exts : List (List String)) (toks : L
       (m2, f1 ++ f2 ++ f3 ++ f4)
     else
       -- not stressed: the collector sees the trace through its normal path (unless forwarded)
-      let pre := if sp.owner.isNone && (lookup m.decided sp.e.tid).isNone && !m.pre.contains sp.e.tid
-                 then sp.e.tid :: m.pre else m.pre
+      let pre := if sp.owner.isNone && (lookup m.decided sp.e.c.tid).isNone && !m.pre.contains sp.e.c.tid
+                 then sp.e.c.tid :: m.pre else m.pre
       ({ m1 with pre := pre }, [])
   | _, _ => (m, [])
 
@@ -260,7 +261,7 @@ def monWork (m : MSt) (toks : List String) : MSt × List Fail :=
     match lookup m.arrived o with
     | none => (m1, [])
     | some sp =>
-      let tid := sp.e.tid
+      let tid := sp.e.c.tid
       match lookup m.decided tid with
       | none => (m1, [])
       | some d =>
@@ -338,7 +339,7 @@ def monFlushUp (m : MSt) (toks : List String) : MSt × List Fail :=
         let p := e.2.2.2
         (if p.host != e.1 then
           [fail "probe-aliases-upstream-event:host-overwritten" s!"span {o} queued for {e.1} now reads APIHost {p.host} (the queued event was re-addressed as probe)"] else []) ++
-        (if p.ev.probe == some true && sp.e.probe != some true then
+        (if p.ev.probe == some true && sp.e.c.probe != some true then
           [fail "probe-aliases-upstream-event:probe-flag" s!"span {o} queued upstream now carries meta.refinery.probe=true"] else []) ++
         (if p.key != e.2.1 || p.ds != e.2.2.1 then
           [fail "kept-span-content-changed:key-dataset" s!"span {o} queued as {e.2.1}/{e.2.2.1} now reads {p.key}/{p.ds}"] else []) ++
@@ -366,9 +367,9 @@ def monFlushUp (m : MSt) (toks : List String) : MSt × List Fail :=
         (if honey.length > 1 then
           [fail "kept-span-duplicated" s!"span {o} reached Honeycomb {honey.length} times"] else []) ++
         honey.flatMap fun h =>
-          (if h.1.srv == toString sp.e.host && h.1.host == toString sp.e.host then [] else
-            [fail "kept-span-wrong-endpoint" s!"span {o} for endpoint {sp.e.host} received by {h.1.srv} (Host {h.1.host})"]) ++
-          (if h.1.key == toString sp.e.key && h.1.ds == toString sp.e.ds then [] else
+          (if h.1.srv == toString sp.e.c.host && h.1.host == toString sp.e.c.host then [] else
+            [fail "kept-span-wrong-endpoint" s!"span {o} for endpoint {sp.e.c.host} received by {h.1.srv} (Host {h.1.host})"]) ++
+          (if h.1.key == toString sp.e.c.key && h.1.ds == toString sp.e.c.ds then [] else
             [fail "kept-span-content-changed:key-dataset-on-wire" s!"span {o} posted with key {h.1.key} dataset {h.1.ds}"]) ++
           contentFails "on-wire" o sp.e h.2)
   ({ m with await := [] }, f1 ++ f2)
